@@ -1865,6 +1865,10 @@ def evaluate__round(self: XPathFunction, context: ta.ContextType = None) \
         number = decimal.Decimal(arg)
         if precision >= -number.as_tuple().exponent:  # type: ignore[operator]
             return arg  # no digit to round off
+        elif precision < -400 and number and -precision > number.adjusted() + 1:
+            # every digit is rounded off, also when the precision is beyond the decimal limits
+            return 0 if isinstance(arg, int) else type(arg)(0) if not isinstance(arg, float) \
+                else arg * 0
         exponent = decimal.Decimal(1).scaleb(-precision)
         rounding = 'ROUND_HALF_UP' if number > 0 else 'ROUND_HALF_DOWN'
         with decimal.localcontext() as ctx:
